@@ -37,7 +37,7 @@ INVALID = {
     "boolean": ["2", "-1", "255"],
     "bytes": ["'text'", "5", "['a']", "bytearray(b'x')"],
     "datetime": ["'not a date'", "'2020-13-01T00:00:00'", "['x']"],
-    "digest": ["('00', None, None)", "('zz' * 16, None, None)", "(None, 'abcd', None)", "(None, None, 'e3b0')", "('d41d8cd98f00b204e9800998ecf8427e',)"],
+    "digest": ["('00', None, None)", "('zz' * 16, None, None)", "(None, 'abcd', None)", "(None, None, 'e3b0')", "('d41d8cd98f00b204e9800998ecf8427e',)", "'d41d8cd98f00b204e9800998ecf8427e'", "12345", "b'\\x00' * 16"],
     "net.ipaddress": ["'1.2.3.256'", "'nonsense'", "-1", "2**128"],
     "net.ipnetwork": ["'10.0.0.1/8'", "'nonsense'"],
     "net.ipv4.Subnet": ["'10.0.0.1/8'", "5"],
